@@ -228,6 +228,7 @@ class DoublyLinkedList(Iterable[_T]):
             return
 
         self.remove(node)
+        self.size += 1
         self.head.prev_node = node
 
         node.prev_node = None
@@ -255,6 +256,7 @@ class DoublyLinkedList(Iterable[_T]):
             return
 
         self.remove(node)
+        self.size += 1
         self.tail.next_node = node
 
         node.next_node = None
@@ -311,6 +313,7 @@ class DoublyLinkedList(Iterable[_T]):
             return
 
         self.remove(node)
+        self.size += 1
 
         if after.next_node is None:
             self.tail = node
